@@ -88,7 +88,7 @@ Definition civil_of_days (z0 : Z) : Z * Z * Z :=
    hour = r / 3600e9, minute = r / 60e9 mod 60, second = r / 1e9 mod 60 for r = ns mod 86400e9,
    computed through the second of the day to keep the divisions small *)
 Definition time_of (day ns : Z) : ctime :=
-  let q := ns / day_ns in
+  let q := if (0 <=? ns) && (ns <? day_ns) then 0 else ns / day_ns in
   let r := ns - q * day_ns in
   let sec := r / 1000000000 in
   let '(y, m, d) := civil_of_days (day + q) in
